@@ -37,13 +37,15 @@ def gen(rng, tier):
         depth, keep = 5, 0.06
     else:
         configs = [(a, b) for a in CANC for b in CANC]
-        depth, keep = 6, 0.2
+        depth, keep = 6, 0.03
     for c1, c0 in configs:
         for n in range(1, depth + 1):
             for word in itertools.product(base, repeat=n):
                 if n == depth and keep < 1.0 and rng.random() > keep:
                     continue
                 if tier == "quick" and n == depth - 1 and rng.random() > 0.5:
+                    continue
+                if tier != "quick" and n == depth - 1 and rng.random() > 0.3:
                     continue
                 cases.append(history(word, c1, c0))
     # the wider alphabet (direct cancel / failure of the inner Deferred), shorter
@@ -53,9 +55,11 @@ def gen(rng, tier):
             for word in itertools.product(wide, repeat=n):
                 if not set(word) & set("yf"):
                     continue
+                if tier != "quick" and n == 4 and rng.random() > 0.3:
+                    continue
                 cases.append(history(word, c1, c0, probe=(rng.random() < 0.8)))
     # random longer programs (arbitrary callbacks incl. returned Deferreds, 1-4 Deferreds, all cancellers)
-    for _ in range(1200 if tier == "quick" else 20000):
+    for _ in range(1200 if tier == "quick" else 10000):
         nd = rng.randrange(1, 5)
         w = {"add": 3, "cb": 3, "eb": 2, "cancel": 3}   # no pause/unpause: independent of the C01 finding F1
         cases.append(K.rand_program(rng, nd, rng.randrange(3, 16), weights=w))
@@ -252,11 +256,11 @@ SPEC = Spec(
     nontrivial=lambda c, o: any(t in o for t in ("A", "S", "K", "EC")),
     histogram=histogram,
     describe=lambda c: {"canc": c["canc"], "ops": c["ops"][:12]},
-    rule="every history of length <= 5 (quick; length 4 sampled 50%, length 5 sampled 6%) / <= 6 (thorough; longest length sampled 20%) over {outer.callback, "
+    rule="every history of length <= 5 (quick; length 4 sampled 50%, length 5 sampled 6%) / <= 6 (thorough; length 5 sampled 30%, length 6 sampled 3%) over {outer.callback, "
          "outer.errback, outer.cancel, add a callback returning the unfired inner Deferred, fire the inner Deferred} "
          "x 7 (quick) / 25 (thorough) canceller pairs from {none, does nothing, fires callback, fires errback, "
          "raises}^2, each Deferred first given a pass-through probe callback; every history of length <= 3 (4) over "
-         "that alphabet + {inner.cancel, inner.errback}; 1 200 (20 000) random programs of 3-15 operations over the "
+         "that alphabet + {inner.cancel, inner.errback}; 1 200 (10 000) random programs of 3-15 operations over the "
          "kernel alphabet without pause/unpause on 1-4 Deferreds.  non-trivial = an AlreadyCalledError, a swallowed result, a "
          "canceller call or a CancelledError occurs; distinct by (case, observation)",
     trusted=["hand-written kernel model coq/Lib/DeferredK.v (tied by this correspondence run only)",
